@@ -314,6 +314,18 @@ Ltac ids :=
          end;
   cbn [orb]; cbv iota.
 
+Lemma check_ok : forall len expected, expected <= len -> check_len len expected = Ok tt.
+Proof. intros len expected H. unfold check_len. destruct (len <? expected) eqn:E; [lia|reflexivity]. Qed.
+
+Lemma expected_other : forall typ, interpreted typ = false -> expected_len typ = 0.
+Proof.
+  intros typ H. unfold interpreted in H. unfold expected_len.
+  repeat match goal with
+         | |- context [if ?c then _ else _] => destruct c eqn:?; try lia
+         end.
+  all: try reflexivity.
+Qed.
+
 Section Table.
 Variable fdiv100 : N -> N.
 Variable en : env.
@@ -327,7 +339,9 @@ Lemma step_rk : forall col style fl f tail, style < 16777216 -> legal_form f = t
   record_step 2 (cell_head col style fl ++ le_bytes 4 (rk_encode f) ++ tail) =
     Ok (CCell (RVal (rk_wrap (xrk_form_value fdiv100 f) (nthN (e_formats en) style) (e_1904 en)))).
 Proof.
-  intros col style fl f tail Hst Hv. unfold XlsbRec.record_step. ids.
+  intros col style fl f tail Hst Hv. unfold XlsbRec.record_step.
+  change (expected_len 2) with 12.
+  rewrite check_ok by (rewrite lenN_head, lenN_app, lenN_le; lia). cbn [obind]. ids.
   rewrite lenN_head, lenN_app, lenN_le.
   destruct (8 + (N.of_nat 4 + lenN tail) <? 12) eqn:E; [lia|].
   unfold cell_fmt. rewrite head_style by exact Hst.
@@ -339,7 +353,9 @@ Qed.
 Lemma step_err : forall typ col style fl e tail, typ = 3 \/ typ = 11 ->
   record_step typ (cell_head col style fl ++ [err_code e] ++ tail) = Ok (CCell (RVal (DError e))).
 Proof.
-  intros typ col style fl e tail [-> | ->]; unfold XlsbRec.record_step; ids;
+  intros typ col style fl e tail [-> | ->]; unfold XlsbRec.record_step;
+    [change (expected_len 3) with 9|change (expected_len 11) with 9];
+    (rewrite check_ok by (rewrite lenN_head; cbn [app]; rewrite lenN_cons; lia)); cbn [obind]; ids;
     rewrite lenN_head; cbn [app]; rewrite lenN_cons;
     (destruct (8 + (1 + lenN tail) <? 9) eqn:E; [lia|]);
     rewrite nth_head8; cbn [nth];
@@ -349,7 +365,9 @@ Qed.
 Lemma step_bool : forall typ col style fl b tail, typ = 4 \/ typ = 10 ->
   record_step typ (cell_head col style fl ++ [flag b] ++ tail) = Ok (CCell (RVal (DBool b))).
 Proof.
-  intros typ col style fl b tail [-> | ->]; unfold XlsbRec.record_step; ids;
+  intros typ col style fl b tail [-> | ->]; unfold XlsbRec.record_step;
+    [change (expected_len 4) with 9|change (expected_len 10) with 9];
+    (rewrite check_ok by (rewrite lenN_head; cbn [app]; rewrite lenN_cons; lia)); cbn [obind]; ids;
     rewrite lenN_head; cbn [app]; rewrite lenN_cons;
     (destruct (8 + (1 + lenN tail) <? 9) eqn:E; [lia|]);
     rewrite nth_head8; cbn [nth];
@@ -361,7 +379,9 @@ Lemma step_real : forall typ col style fl bits tail, typ = 5 \/ typ = 9 ->
   record_step typ (cell_head col style fl ++ le_bytes 8 bits ++ tail) =
     Ok (CCell (RVal (format_excel_f64 bits (nthN (e_formats en) style) (e_1904 en)))).
 Proof.
-  intros typ col style fl bits tail [-> | ->] Hst Hb; unfold XlsbRec.record_step; ids;
+  intros typ col style fl bits tail [-> | ->] Hst Hb; unfold XlsbRec.record_step;
+    [change (expected_len 5) with 16|change (expected_len 9) with 16];
+    (rewrite check_ok by (rewrite lenN_head, lenN_app, lenN_le; lia)); cbn [obind]; ids;
     rewrite lenN_head, lenN_app, lenN_le;
     (destruct (8 + (N.of_nat 8 + lenN tail) <? 16) eqn:E; [lia|]);
     unfold cell_fmt; rewrite head_style by exact Hst; rewrite rd_head8, rd8 by exact Hb;
@@ -372,10 +392,15 @@ Lemma step_str : forall typ col style fl s tail, typ = 6 \/ typ = 8 ->
   forallb scalarb s = true -> utf16_len s <= 32767 ->
   record_step typ (cell_head col style fl ++ enc_wide s ++ tail) = Ok (CCell (RVal (DString s))).
 Proof.
-  intros typ col style fl s tail [-> | ->] Hs Hl; unfold XlsbRec.record_step; ids;
+  intros typ col style fl s tail [-> | ->] Hs Hl; unfold XlsbRec.record_step;
+    [change (expected_len 6) with 8|change (expected_len 8) with 8];
+    (rewrite check_ok by (rewrite lenN_head; lia)); cbn [obind]; ids;
     rewrite lenN_head;
     (destruct (8 + lenN (enc_wide s ++ tail) <? 8) eqn:E; [lia|]);
-    rewrite head_skip;
+    rewrite head_skip; unfold wide_str_chk;
+    (destruct (lenN (enc_wide s ++ tail) <? 4) eqn:E4;
+      [unfold enc_wide, u32_le in E4; rewrite <- app_assoc in E4; cbn [app] in E4;
+       rewrite !lenN_cons in E4; lia|]);
     (rewrite wide_str_roundtrip; [reflexivity|apply forallb_scalar, Hs|unfold U32MAX; lia]).
 Qed.
 
@@ -383,7 +408,9 @@ Lemma step_isst : forall col style fl i tail s, i < 4294967296 ->
   nthN (e_strings en) i = Some s ->
   record_step 7 (cell_head col style fl ++ le_bytes 4 i ++ tail) = Ok (CCell (RShared s)).
 Proof.
-  intros col style fl i tail s Hi Hs. unfold XlsbRec.record_step. ids.
+  intros col style fl i tail s Hi Hs. unfold XlsbRec.record_step.
+  change (expected_len 7) with 12.
+  rewrite check_ok by (rewrite lenN_head, lenN_app, lenN_le; lia). cbn [obind]. ids.
   rewrite lenN_head, lenN_app, lenN_le.
   destruct (8 + (N.of_nat 4 + lenN tail) <? 12) eqn:E; [lia|].
   rewrite rd_head8, rd4 by exact Hi. rewrite Hs. reflexivity.
@@ -392,7 +419,8 @@ Qed.
 (* every id the reader does not interpret (BrtCellBlank among them) is skipped *)
 Lemma step_other : forall typ buf, interpreted typ = false -> record_step typ buf = Ok CSkip.
 Proof.
-  intros typ buf H. unfold interpreted in H. unfold XlsbRec.record_step.
+  intros typ buf H. unfold XlsbRec.record_step. rewrite (expected_other _ H).
+  rewrite check_ok by lia. cbn [obind]. unfold interpreted in H.
   repeat match goal with
          | |- context [if ?c then _ else _] => destruct c eqn:?; try lia
          end.
@@ -402,13 +430,17 @@ Qed.
 Lemma step_row : forall row tail, row < 4294967296 ->
   record_step 0 (le_bytes 4 row ++ tail) = Ok (CRow row).
 Proof.
-  intros row tail H. unfold XlsbRec.record_step. ids.
+  intros row tail H. unfold XlsbRec.record_step. change (expected_len 0) with 4.
+  rewrite check_ok by (rewrite lenN_app, lenN_le; lia). cbn [obind]. ids.
   rewrite lenN_app, lenN_le. destruct (N.of_nat 4 + lenN tail <? 4) eqn:E; [lia|].
   rewrite rd4 by exact H. reflexivity.
 Qed.
 
 Lemma step_end : forall buf, record_step 146 buf = Ok CEnd.
-Proof. intros buf. unfold XlsbRec.record_step. ids. reflexivity. Qed.
+Proof.
+  intros buf. unfold XlsbRec.record_step. change (expected_len 146) with 0.
+  rewrite check_ok by lia. cbn [obind]. ids. reflexivity.
+Qed.
 
 (* each interpreted cell record kind yields the documented variant; the column is the first
    field.  BrtCellBlank is skipped. *)
@@ -495,6 +527,83 @@ Lemma fill_frame : forall fr id body rest buf, wf_frame fr id body = true ->
 Proof.
   intros fr id body rest buf H. apply wf_frame_split in H as (_ & _ & H3 & H4).
   apply fill_buffer_frame; assumption.
+Qed.
+
+(* ================= totality of the framing layer (C06) ================= *)
+(* an outcome that is neither a panic nor a fuel exhaustion *)
+Definition clean (A : Type) (o : outcome A) : Prop := o <> Panic /\ o <> OutOfFuel.
+
+Lemma clean_ok : forall (A : Type) (a : A), clean (Ok a).
+Proof. split; discriminate. Qed.
+Lemma clean_err : forall (A : Type) e, clean (@Err A e).
+Proof. split; discriminate. Qed.
+
+Lemma read_u8_clean : forall s, clean (read_u8 s).
+Proof. intros [|b s]; cbn [read_u8]; [apply clean_err|apply clean_ok]. Qed.
+
+Lemma read_type_clean : forall s, clean (read_type s).
+Proof.
+  intros s. unfold read_type. destruct s as [|b s]; cbn [read_u8 obind fst snd]; [apply clean_err|].
+  destruct (128 <=? b); [|apply clean_ok].
+  destruct s as [|b2 s]; cbn [read_u8 obind fst snd]; [apply clean_err|apply clean_ok].
+Qed.
+
+Lemma read_len_more_clean : forall n i b len s, clean (read_len_more n i b len s).
+Proof.
+  induction n as [|n IHn]; intros i b len s; cbn [read_len_more]; [apply clean_ok|].
+  destruct (b <? 128); [apply clean_ok|].
+  destruct s as [|x s]; cbn [read_u8 obind fst snd]; [apply clean_err|]. apply IHn.
+Qed.
+
+Lemma fill_buffer_clean : forall s buf, clean (fill_buffer s buf).
+Proof.
+  intros s buf. unfold fill_buffer, read_len.
+  destruct s as [|b0 s]; cbn [read_u8 obind fst snd]; [apply clean_err|].
+  destruct (read_len_more_clean 3 1 b0 (b0 mod 128) s) as [C1 C2].
+  destruct (read_len_more 3 1 b0 (b0 mod 128) s) as [[l s']| | |]; cbn [obind fst snd];
+    try apply clean_err; try congruence.
+  destruct (split_at s' l) as [[p q]|]; [apply clean_ok|apply clean_err].
+Qed.
+
+Lemma next_record_clean : forall s, clean (next_record s).
+Proof.
+  intros s. unfold next_record. destruct (read_type_clean s) as [T1 T2].
+  destruct (read_type s) as [[t s1]| | |]; cbn [obind fst snd]; try apply clean_err; try congruence.
+  destruct (fill_buffer_clean s1 []) as [F1 F2].
+  destruct (fill_buffer s1 []) as [[[l b] r]| | |]; cbn [obind fst snd];
+    try apply clean_err; try apply clean_ok; congruence.
+Qed.
+
+Lemma wide_str_chk_clean : forall b, clean (wide_str_chk b).
+Proof.
+  intros b. unfold wide_str_chk. destruct (lenN b <? 4) eqn:E; [apply clean_err|].
+  unfold wide_str, read_u32_le.
+  destruct b as [|b0 [|b1 [|b2 [|b3 b]]]]; try (unfold lenN in E; cbn [length] in E; lia).
+  cbn [obind].
+  match goal with |- context [if ?c then _ else _] => destruct c end;
+    [apply clean_err|apply clean_ok].
+Qed.
+
+(* the payload delivered by read_exact has the announced length *)
+Lemma split_acc_len : forall s n acc p r,
+  split_acc s n acc = Some (p, r) -> lenN p = lenN acc + n.
+Proof.
+  induction s as [|x s IH]; intros n acc p r H.
+  - cbn [split_acc] in H. destruct (n =? 0) eqn:E; [|discriminate]. inversion H; subst.
+    rewrite rev_append_rev, app_nil_r. unfold lenN. rewrite rev_length. lia.
+  - cbn [split_acc] in H. destruct (n =? 0) eqn:E.
+    + inversion H; subst. rewrite rev_append_rev, app_nil_r. unfold lenN. rewrite rev_length. lia.
+    + apply IH in H. rewrite lenN_cons in H. lia.
+Qed.
+
+Lemma fill_buffer_buf : forall s buf l b r,
+  fill_buffer s buf = Ok (l, b, r) -> l <= lenN b.
+Proof.
+  intros s buf l b r H. unfold fill_buffer in H.
+  destruct (read_len s) as [[l1 s1]| | |]; cbn [obind fst snd] in H; try discriminate.
+  destruct (split_at s1 l1) as [[p q]|] eqn:E; [|discriminate].
+  unfold split_at in E. apply split_acc_len in E. rewrite lenN_nil in E.
+  inversion H; subst. rewrite lenN_app. lia.
 Qed.
 
 Fixpoint final_row (row : N) (items : list (frm * item)) : N :=
@@ -669,64 +778,55 @@ Proof.
   - apply IH; lia.
 Qed.
 
-Lemma read_len_more_no_fuel : forall n i b len s, read_len_more n i b len s <> OutOfFuel.
+(* the cell loop never panics and, with more fuel than bytes, never runs out of fuel *)
+Lemma record_step_clean : forall t b, clean (record_step t b).
 Proof.
-  induction n as [|n IHn]; intros i b len s; cbn [read_len_more]; [discriminate|].
-  destruct (b <? 128); [discriminate|].
-  destruct s as [|x s]; cbn [read_u8 obind fst snd]; [discriminate|]. apply IHn.
-Qed.
-
-Lemma wide_str_no_fuel : forall b, wide_str b <> OutOfFuel.
-Proof.
-  intros b. unfold wide_str, read_u32_le.
-  destruct b as [|b0 [|b1 [|b2 [|b3 b]]]]; cbn [obind]; try discriminate.
-  match goal with |- context [if ?c then _ else _] => destruct c end; discriminate.
-Qed.
-
-Lemma record_step_no_fuel : forall t b, record_step t b <> OutOfFuel.
-Proof.
-  intros t b. unfold XlsbRec.record_step.
-  repeat match goal with
-         | |- (if ?c then _ else _) <> _ => destruct c
-         end; try discriminate.
+  intros t b. destruct (interpreted t) eqn:Hi.
+  2:{ rewrite step_other by exact Hi. split; discriminate. }
+  assert (Ht : t = 0 \/ t = 2 \/ t = 3 \/ t = 4 \/ t = 5 \/ t = 6 \/ t = 7 \/ t = 8 \/ t = 9 \/
+               t = 10 \/ t = 11 \/ t = 146) by (unfold interpreted in Hi; lia).
+  clear Hi. unfold XlsbRec.record_step, check_len.
+  repeat (destruct Ht as [Ht|Ht]; [subst t|]); try subst t;
+    match goal with |- context [expected_len ?k] =>
+      let v := eval vm_compute in (expected_len k) in change (expected_len k) with v end;
+    match goal with |- context [lenN b <? ?v] => destruct (lenN b <? v) eqn:E end;
+    cbn [obind]; try (split; discriminate); ids; rewrite ?E; try (split; discriminate).
+  - (* error codes *)
+    unfold parse_cerr.
+    repeat match goal with
+           | |- context [if ?c then _ else _] => destruct c
+           end; cbn [obind]; split; discriminate.
+  - (* inline string *)
+    destruct (wide_str_chk_clean (skipn 8 b)) as [W1 W2].
+    destruct (wide_str_chk (skipn 8 b)); cbn [obind]; split; try discriminate; congruence.
+  - destruct (nthN (e_strings en) (rd 4 8 b)); split; discriminate.
+  - destruct (wide_str_chk_clean (skipn 8 b)) as [W1 W2].
+    destruct (wide_str_chk (skipn 8 b)); cbn [obind]; split; try discriminate; congruence.
   - unfold parse_cerr.
     repeat match goal with
            | |- context [if ?c then _ else _] => destruct c
-           end; cbn [obind]; discriminate.
-  - pose proof (wide_str_no_fuel (skipn 8 b)).
-    destruct (wide_str (skipn 8 b)); cbn [obind]; try discriminate. congruence.
-  - destruct (nthN (e_strings en) (rd 4 8 b)); discriminate.
+           end; cbn [obind]; split; discriminate.
+Qed.
+
+Lemma cells_loop_clean : forall f s row, (length s < f)%nat -> clean (cells_loop f s row).
+Proof.
+  induction f as [|f IH]; intros s row H; [lia|]. cbn [XlsbRec.cells_loop].
+  destruct (next_record_clean s) as [N1 N2].
+  destruct (next_record s) as [[[t b] r]| | |] eqn:E; cbn [obind fst snd];
+    try (split; discriminate); try congruence.
+  apply next_record_len in E. destruct (record_step_clean t b) as [R1 R2].
+  destruct (record_step t b) as [[v|r'| |]| | |]; cbn [obind];
+    try (split; discriminate); try congruence.
+  - destruct (IH r row ltac:(lia)) as [I1 I2].
+    destruct (cells_loop f r row); cbn [obind]; split; try discriminate; congruence.
+  - destruct (1048576 <? r'); [split; discriminate|]. apply IH; lia.
+  - apply IH; lia.
 Qed.
 
 (* the fuel worksheet_range_ref's model uses (length of the part + 1) always suffices *)
 Lemma cells_loop_no_fuel_out : forall f s row, (length s < f)%nat ->
   cells_loop f s row <> OutOfFuel.
-Proof.
-  induction f as [|f IH]; intros s row H; [lia|]. cbn [XlsbRec.cells_loop].
-  destruct (next_record s) as [[[t b] r]| | |] eqn:E; cbn [obind fst snd]; try discriminate.
-  - apply next_record_len in E. pose proof (record_step_no_fuel t b) as Hn.
-    destruct (record_step t b) as [[v|r'| |]| | |]; cbn [obind]; try discriminate.
-    + specialize (IH r row ltac:(lia)).
-      destruct (cells_loop f r row); cbn [obind]; try discriminate. congruence.
-    + destruct (1048576 <? r'); [discriminate|]. apply IH; lia.
-    + apply IH; lia.
-    + congruence.
-  - (* next_record itself never runs out of fuel: it has none *)
-    exfalso. unfold next_record, read_type, fill_buffer, read_len in E.
-    destruct s as [|b0 s]; cbn [read_u8 obind fst snd] in E; [discriminate|].
-    destruct (128 <=? b0).
-    + destruct s as [|b1 s]; cbn [read_u8 obind fst snd] in E; [discriminate|].
-      destruct s as [|b2 s]; cbn [read_u8 obind fst snd] in E; [discriminate|].
-      destruct (read_len_more 3 1 b2 (b2 mod 128) s) as [[l s']| | |] eqn:E2;
-        cbn [obind fst snd] in E; try discriminate.
-      * destruct (split_at s' l) as [[p q]|]; discriminate.
-      * exact (read_len_more_no_fuel _ _ _ _ _ E2).
-    + destruct s as [|b2 s]; cbn [read_u8 obind fst snd] in E; [discriminate|].
-      destruct (read_len_more 3 1 b2 (b2 mod 128) s) as [[l s']| | |] eqn:E2;
-        cbn [obind fst snd] in E; try discriminate.
-      * destruct (split_at s' l) as [[p q]|]; discriminate.
-      * exact (read_len_more_no_fuel _ _ _ _ _ E2).
-Qed.
+Proof. intros f s row H. destruct (@cells_loop_clean f s row H) as [_ C]. exact C. Qed.
 
 (* ================= C03_ignorable_transparent ================= *)
 (* the cells of a part positioned in the cell table (after BrtBeginSheetData), current row
@@ -950,17 +1050,8 @@ Proof.
   rewrite E0, E4, E8, E12. reflexivity.
 Qed.
 
-Lemma dims_len_ok : forall r0 c0 r1 c1,
-  r0 <= r1 -> r1 < 1048576 -> c0 <= c1 -> c1 < 16384 ->
-  exists n, dims_len ((r0, c0), (r1, c1)) = Ok n.
-Proof.
-  intros r0 c0 r1 c1 H0 H1 H2 H3. unfold dims_len, sub32, add32, U32MAX. cbn [fst snd].
-  destruct (r0 <=? r1) eqn:E1; [|lia]. cbn [obind].
-  destruct (r1 - r0 + 1 <=? 4294967295) eqn:E2; [|lia]. cbn [obind].
-  destruct (c0 <=? c1) eqn:E3; [|lia]. cbn [obind].
-  destruct (c1 - c0 + 1 <=? 4294967295) eqn:E4; [|lia]. cbn [obind].
-  eexists. reflexivity.
-Qed.
+Lemma lenN_dim_body : forall d tail, lenN (dim_body d tail) = 16 + lenN tail.
+Proof. intros. unfold dim_body. rewrite !lenN_app, !lenN_le. lia. Qed.
 
 (* ================= the cells of every legal layout ================= *)
 Section Sheet.
@@ -1006,6 +1097,7 @@ Proof.
   unfold S0 at 1. rewrite E1.
   destruct (F - length pre1)%nat as [|f1] eqn:EF1; [unfold F in EF1; lia|].
   unfold T1 at 1. rewrite nsb_found by exact Hdf. cbn [obind fst snd].
+  rewrite check_ok by (rewrite lenN_dim_body; lia). cbn [obind].
   rewrite dim_body_app. rewrite parse_dims_body by lia. cbn [obind fst snd].
   (* phase 2: up to BrtBeginSheetData *)
   match goal with |- context [next_skip_blocks F 145 BOUNDS2 T2 ?b] => set (buf2 := b) end.
@@ -1014,7 +1106,6 @@ Proof.
   { unfold F. lia. }
   rewrite E2. destruct F2 as [|f2]; [unfold F in HF2; lia|].
   rewrite nsb_found by exact Hb. cbn [obind fst snd].
-  destruct (@dims_len_ok r0 c0 r1 c1) as [n En]; try lia. rewrite En. cbn [obind].
   (* phase 3: the cell table *)
   unfold T3. unfold logical. cbn [l_items].
   apply cell_table_loop; [exact Hit|exact He|unfold F; lia].
@@ -1024,9 +1115,7 @@ Qed.
 Theorem reader_cells_of_sheet_cells : forall s L,
   sheet_cells fdiv100 en s = Ok L -> reader_cells fdiv100 en s = Ok L.
 Proof.
-  intros s L H. unfold sheet_cells, reader_cells in *. cbv zeta in *.
-  destruct (reader_new (S (length s)) s) as [nr| | |]; cbn [obind] in *; try discriminate.
-  destruct (dims_len (fst nr)); cbn [obind] in *; try discriminate. exact H.
+  intros s L H. exact H.
 Qed.
 
 End Sheet.
@@ -1106,11 +1195,15 @@ Proof.
   rewrite tabulate_nth by exact H. rewrite N.add_0_l. reflexivity.
 Qed.
 
-Lemma from_sparse_range_of : forall L : list (pos * T),
-  sorted_by_row L -> Forall (@in_grid T) L ->
+(* a range that has the tight bounding box of L and L's last-written value at every position
+   is range_of L *)
+Lemma range_of_from_spec : forall L : list (pos * T),
+  Forall (@in_grid T) L ->
+  (exists r, from_sparse d L = Ok r /\ Wf r /\ rect r = tight_bbox (map fst L) /\
+     forall q, get_value r q = if in_rect r q then Some (last_write d L q) else None) ->
   from_sparse d L = Ok (range_of d L).
 Proof.
-  intros L Hs Hg. destruct L as [|c0 L0] eqn:EL; [reflexivity|]. rewrite <- EL in *.
+  intros L Hg Hspec. destruct L as [|c0 L0] eqn:EL; [reflexivity|]. rewrite <- EL in *.
   assert (Hne : L <> []) by (rewrite EL; discriminate).
   assert (Hbb : exists s e, tight_bbox (map fst L) = Some (s, e) /\
                   fst s < 1048576 /\ snd s < 16384 /\ fst e < 1048576 /\ snd e < 16384).
@@ -1120,12 +1213,7 @@ Proof.
     cbn [map] in HgP. destruct (tight_bbox_grid HgP) as (s & e & Hb & B).
     exists s, e. split; [exact Hb|]. exact B. }
   destruct Hbb as (s & e & Hbb & Hs1 & Hs2 & He1 & He2).
-  assert (Hpre : pre empty (OFromSparse L)).
-  { cbn [pre]. split; [exact Hs|]. split.
-    - intros c Hc. rewrite Forall_forall in Hg. destruct (Hg c Hc) as [G1 G2].
-      unfold U32MAX. lia.
-    - rewrite Hbb. unfold U32MAX. lia. }
-  destruct (from_sparse_spec d Hpre) as (r & Hr & Hwf & Hrect & Hget).
+  destruct Hspec as (r & Hr & Hwf & Hrect & Hget).
   rewrite Hr. f_equal. unfold range_of. rewrite Hbb.
   destruct r as [rs re inner]. rewrite Hbb in Hrect. unfold rect in Hrect.
   destruct (is_empty (mkRange rs re inner)) eqn:Hemp; [discriminate|].
@@ -1159,6 +1247,44 @@ Proof.
     assert (H2 : nth_error (range_cells d s e L) k = None).
     { apply nth_error_None. rewrite range_cells_length. fold h w. lia. }
     rewrite H1, H2. reflexivity.
+Qed.
+
+Lemma grid_bbox_bounds : forall L : list (pos * T), Forall (@in_grid T) L ->
+  (forall c, In c L -> fst (fst c) <= U32MAX /\ snd (fst c) <= U32MAX) /\
+  match tight_bbox (map fst L) with
+  | None => True
+  | Some (s, e) => box_in_grid (s, e)
+  end.
+Proof.
+  intros L Hg. split.
+  - intros c Hc. rewrite Forall_forall in Hg. destruct (Hg c Hc). unfold U32MAX. lia.
+  - destruct L as [|c0 L0]; [exact I|]. cbn [map].
+    assert (HgP : Forall (fun p => fst p < 1048576 /\ snd p < 16384) (map fst (c0 :: L0)))
+      by (apply Forall_map; exact Hg).
+    cbn [map] in HgP. destruct (tight_bbox_grid HgP) as (s & e & -> & B). exact B.
+Qed.
+
+Lemma from_sparse_range_of : forall L : list (pos * T),
+  sorted_by_row L -> Forall (@in_grid T) L ->
+  from_sparse d L = Ok (range_of d L).
+Proof.
+  intros L Hs Hg. apply range_of_from_spec; [exact Hg|].
+  apply from_sparse_spec. cbn [pre]. destruct (grid_bbox_bounds Hg) as [G1 G2].
+  split; [exact Hs|]. split; [exact G1|].
+  destruct (tight_bbox (map fst L)) as [[s e]|]; [|exact I].
+  unfold box_in_grid in G2. unfold U32MAX. cbn [fst snd] in *. lia.
+Qed.
+
+(* Range::from_sparse after commit 3140dd1 takes the row bounds as min / max over all cells: the
+   order of the cells no longer matters *)
+Lemma from_sparse_range_of_any_order : forall L : list (pos * T),
+  Forall (@in_grid T) L -> from_sparse d L = Ok (range_of d L).
+Proof.
+  intros L Hg. apply range_of_from_spec; [exact Hg|].
+  apply from_sparse_spec_unsorted. destruct (grid_bbox_bounds Hg) as [G1 G2].
+  split; [exact G1|].
+  destruct (tight_bbox (map fst L)) as [[s e]|]; [|exact I].
+  unfold box_in_grid in G2. unfold box_cells, U64MAX. cbn [fst snd] in *. nia.
 Qed.
 
 End FromSparse.
@@ -1257,6 +1383,20 @@ Proof.
   f_equal. apply (range_of_map to_data (RVal DEmpty)).
 Qed.
 
+(* on HEAD the rows need not even be in order: every well-formed layout reads back as the range
+   of its logical cells *)
+Theorem xlsb_sheet_main_any_order : forall c,
+  wf_layout en c = true -> known_C03 c = None ->
+  worksheet_range_ref fdiv100 en FirstNonEmptyRow (encode_sheet c) =
+    Ok (range_of (RVal DEmpty) (logical fdiv100 en c)).
+Proof.
+  intros c Hwf Hk. unfold worksheet_range_ref.
+  rewrite sheet_cells_encode by assumption. cbn [obind lazy_cells].
+  apply from_sparse_range_of_any_order.
+  unfold logical. apply denote_grid; [|lia].
+  unfold wf_layout in Hwf. repeat (apply andb_true_iff in Hwf as [Hwf ?]). assumption.
+Qed.
+
 (* the layout-level reading of "ignorable records never shift or drop cells": an ignorable
    record inserted anywhere in the cell table of a legal layout gives a legal layout of the
    same logical sheet *)
@@ -1288,7 +1428,11 @@ Proof.
     apply andb_true_iff in Hx as [Hx Hl]. apply andb_true_iff in Hx as [Hf Hs].
     unfold enc_sst_item at 1. cbn [fst snd].
     rewrite nsb_found by exact Hf. cbn [obind fst snd].
-    cbn [app]. rewrite <- app_assoc.
+    rewrite check_ok by (cbn [app]; rewrite lenN_cons; lia). cbn [obind].
+    cbn [app]. rewrite <- app_assoc. unfold wide_str_chk.
+    match goal with |- context [lenN ?l <? 4] => destruct (lenN l <? 4) eqn:E4 end.
+    { unfold enc_wide, u32_le in E4. rewrite <- app_assoc in E4. cbn [app] in E4.
+      rewrite !lenN_cons in E4. lia. }
     rewrite wide_str_roundtrip; [|apply forallb_scalar, Hs|unfold U32MAX; lia].
     cbn [obind fst snd].
     replace (1 + lenN items - 1) with (lenN items) by lia.
@@ -1307,6 +1451,7 @@ Proof.
   rewrite lenN_nil.
   assert (Hlb : lenN body = 8) by (unfold body; rewrite lenN_app, !lenN_le; reflexivity).
   rewrite Hlb. change (0 <? 8) with true. cbv iota. rewrite app_nil_r, Hlb.
+  rewrite check_ok by lia. cbn [obind].
   change (8 <? 8) with false. cbv iota.
   assert (Hrd : rd 4 4 body = lenN items).
   { unfold body. rewrite rd_app_skip by apply le_bytes_length.
@@ -1388,3 +1533,179 @@ Lemma example_sst :
   forallb wf_sst_item [(fr1, [97; 98], []); (fr2, [99], [1; 2])] = true /\
   sst_strings [(fr1, [97; 98], []); (fr2, [99], [1; 2])] = e_strings example_env.
 Proof. split; vm_compute; reflexivity. Qed.
+
+(* ================= totality: no panic, and the stated fuel suffices (C06) ================= *)
+(* every framing step consumes at least one byte and delivers at least the announced bytes *)
+Lemma skip_until_clean : forall f e s buf, (length s < f)%nat -> clean (skip_until f e s buf).
+Proof.
+  induction f as [|f IH]; intros e s buf H; [lia|]. cbn [skip_until].
+  destruct (read_type_clean s) as [T1 T2].
+  destruct (read_type s) as [[t s1]| | |] eqn:E1; cbn [obind fst snd]; try apply clean_err; try congruence.
+  apply read_type_len in E1.
+  destruct (fill_buffer_clean s1 buf) as [F1 F2].
+  destruct (fill_buffer s1 buf) as [[[l b] r]| | |] eqn:E2; cbn [obind fst snd];
+    try apply clean_err; try congruence.
+  apply fill_buffer_len in E2.
+  destruct (t =? e); [apply clean_ok|]. apply IH. lia.
+Qed.
+
+Lemma skip_until_len : forall f e s buf b r,
+  skip_until f e s buf = Ok (b, r) -> (length r < length s)%nat.
+Proof.
+  induction f as [|f IH]; intros e s buf b r H; [discriminate|]. cbn [skip_until] in H.
+  destruct (read_type s) as [[t s1]| | |] eqn:E1; cbn [obind fst snd] in H; try discriminate.
+  apply read_type_len in E1.
+  destruct (fill_buffer s1 buf) as [[[l b1] r1]| | |] eqn:E2; cbn [obind fst snd] in H; try discriminate.
+  apply fill_buffer_len in E2.
+  destruct (t =? e).
+  - inversion H; subst. lia.
+  - apply IH in H. lia.
+Qed.
+
+Lemma nsb_clean : forall f rt bounds s buf, (length s < f)%nat ->
+  clean (next_skip_blocks f rt bounds s buf).
+Proof.
+  induction f as [|f IH]; intros rt bounds s buf H; [lia|]. cbn [next_skip_blocks].
+  destruct (read_type_clean s) as [T1 T2].
+  destruct (read_type s) as [[t s1]| | |] eqn:E1; cbn [obind fst snd]; try apply clean_err; try congruence.
+  apply read_type_len in E1.
+  destruct (fill_buffer_clean s1 buf) as [F1 F2].
+  destruct (fill_buffer s1 buf) as [[[l b] r]| | |] eqn:E2; cbn [obind fst snd];
+    try apply clean_err; try congruence.
+  apply fill_buffer_len in E2.
+  destruct (t =? rt); [apply clean_ok|].
+  destruct (find_bound bounds t) as [e|].
+  - destruct (@skip_until_clean f e r b ltac:(lia)) as [S1 S2].
+    destruct (skip_until f e r b) as [[b2 r2]| | |] eqn:E3; cbn [obind fst snd];
+      try apply clean_err; try congruence.
+    apply skip_until_len in E3. apply IH. lia.
+  - apply IH. lia.
+Qed.
+
+Lemma nsb_ok : forall f rt bounds s buf l b r,
+  next_skip_blocks f rt bounds s buf = Ok (l, b, r) -> (length r < length s)%nat /\ l <= lenN b.
+Proof.
+  induction f as [|f IH]; intros rt bounds s buf l b r H; [discriminate|]. cbn [next_skip_blocks] in H.
+  destruct (read_type s) as [[t s1]| | |] eqn:E1; cbn [obind fst snd] in H; try discriminate.
+  apply read_type_len in E1.
+  destruct (fill_buffer s1 buf) as [[[l1 b1] r1]| | |] eqn:E2; cbn [obind fst snd] in H; try discriminate.
+  pose proof (fill_buffer_buf _ _ E2) as Hb. apply fill_buffer_len in E2.
+  destruct (t =? rt).
+  - inversion H; subst. split; [lia|exact Hb].
+  - destruct (find_bound bounds t) as [e|].
+    + destruct (skip_until f e r1 b1) as [[b2 r2]| | |] eqn:E3; cbn [obind fst snd] in H; try discriminate.
+      apply skip_until_len in E3. apply IH in H. destruct H. split; [lia|assumption].
+    + apply IH in H. destruct H. split; [lia|assumption].
+Qed.
+
+(* C03_no_panic_framing: on every byte string and every buffer state the framing layer returns a
+   value or an error — never a panic; the fuelled loops never run out of fuel once the fuel
+   exceeds the number of bytes *)
+Theorem no_panic_framing :
+  (forall s, clean (read_type s)) /\
+  (forall s buf, clean (fill_buffer s buf)) /\
+  (forall s, clean (next_record s)) /\
+  (forall f e s buf, (length s < f)%nat -> clean (skip_until f e s buf)) /\
+  (forall f rt bounds s buf, (length s < f)%nat -> clean (next_skip_blocks f rt bounds s buf)).
+Proof.
+  split; [exact read_type_clean|]. split; [exact fill_buffer_clean|].
+  split; [exact next_record_clean|]. split; [exact skip_until_clean|exact nsb_clean].
+Qed.
+
+Lemma reader_new_clean : forall F s, (length s < F)%nat -> clean (reader_new F s).
+Proof.
+  intros F s H. unfold reader_new.
+  destruct (@nsb_clean F 148 BOUNDS1 s [] H) as [A1 A2].
+  destruct (next_skip_blocks F 148 BOUNDS1 s []) as [[[l b] r]| | |] eqn:E1; cbn [obind fst snd];
+    try apply clean_err; try congruence.
+  apply nsb_ok in E1 as [Hr Hl].
+  unfold check_len. destruct (l <? 16) eqn:E16; cbn [obind]; [apply clean_err|].
+  unfold parse_dims. destruct (lenN b <? 16) eqn:Eb; [lia|]. cbn [obind].
+  destruct (@nsb_clean F 145 BOUNDS2 r b ltac:(lia)) as [B1 B2].
+  destruct (next_skip_blocks F 145 BOUNDS2 r b) as [[[l2 b2] r2]| | |]; cbn [obind fst snd];
+    try apply clean_err; try apply clean_ok; congruence.
+Qed.
+
+Lemma reader_new_len : forall F s d r, reader_new F s = Ok (d, r) -> (length r < length s)%nat.
+Proof.
+  intros F s d r H. unfold reader_new in H.
+  destruct (next_skip_blocks F 148 BOUNDS1 s []) as [[[l b] r1]| | |] eqn:E1; cbn [obind fst snd] in H;
+    try discriminate.
+  apply nsb_ok in E1 as [Hr _].
+  destruct (check_len l 16); cbn [obind] in H; try discriminate.
+  destruct (parse_dims b); cbn [obind] in H; try discriminate.
+  destruct (next_skip_blocks F 145 BOUNDS2 r1 b) as [[[l2 b2] r2]| | |] eqn:E2; cbn [obind fst snd] in H;
+    try discriminate.
+  apply nsb_ok in E2 as [Hr2 _]. inversion H; subst. lia.
+Qed.
+
+(* C03_no_panic_reader: for every byte string whatsoever, every style table and string table,
+   the model of worksheet_cells_reader + next_cell* (and of the cell list worksheet_range_ref
+   builds its range from) returns cells or an error: no panic, and the fuel it is given (length of
+   the part + 1) is never exhausted *)
+Theorem no_panic_reader : forall fdiv100 en s,
+  clean (reader_cells fdiv100 en s) /\ clean (sheet_cells fdiv100 en s).
+Proof.
+  intros fdiv100 en s.
+  assert (C : clean (reader_cells fdiv100 en s)).
+  { unfold reader_cells. cbv zeta.
+    destruct (@reader_new_clean (S (length s)) s ltac:(lia)) as [R1 R2].
+    destruct (reader_new (S (length s)) s) as [[d r]| | |] eqn:E; cbn [obind fst snd];
+      try apply clean_err; try congruence.
+    apply reader_new_len in E. apply cells_loop_clean. lia. }
+  split; exact C.
+Qed.
+
+(* the shared string table *)
+Lemma sst_items_clean : forall fuel count s buf, (length s < fuel)%nat ->
+  clean (sst_items fuel count s buf).
+Proof.
+  induction fuel as [|f IH]; intros count s buf H; [lia|]. cbn [sst_items].
+  destruct (count =? 0); [apply clean_ok|].
+  destruct (@nsb_clean (S f) 19 [(35, Some 36)] s buf H) as [A1 A2].
+  destruct (next_skip_blocks (S f) 19 [(35, Some 36)] s buf) as [[[l b] r]| | |] eqn:E1;
+    cbn [obind fst snd]; try apply clean_err; try congruence.
+  apply nsb_ok in E1 as [Hr Hl].
+  unfold check_len. destruct (l <? 1) eqn:E; cbn [obind]; [apply clean_err|].
+  destruct b as [|x tl]; [rewrite lenN_nil in Hl; lia|].
+  destruct (wide_str_chk_clean tl) as [W1 W2].
+  destruct (wide_str_chk tl) as [w| | |]; cbn [obind]; try apply clean_err; try congruence.
+  destruct (IH (count - 1) r (x :: tl) ltac:(lia)) as [I1 I2].
+  destruct (sst_items f (count - 1) r (x :: tl)); cbn [obind];
+    try apply clean_err; try apply clean_ok; congruence.
+Qed.
+
+Theorem no_panic_sst : forall part, clean (read_shared_strings part).
+Proof.
+  intros [s|]; [|apply clean_ok]. unfold read_shared_strings. cbv zeta.
+  destruct (@nsb_clean (S (length s)) 159 [] s [] ltac:(lia)) as [A1 A2].
+  destruct (next_skip_blocks (S (length s)) 159 [] s []) as [[[l b] r]| | |] eqn:E1;
+    cbn [obind fst snd]; try apply clean_err; try congruence.
+  apply nsb_ok in E1 as [Hr Hl].
+  unfold check_len. destruct (l <? 8) eqn:E; cbn [obind]; [apply clean_err|].
+  destruct (lenN b <? 8) eqn:Eb; [lia|]. apply sst_items_clean. lia.
+Qed.
+
+(* the whole of worksheet_range_ref / worksheet_range, header-row option included: no panic and no
+   fuel exhaustion on any byte string (Range::from_sparse is total since commit 3140dd1) *)
+Theorem no_panic_range_ref : forall fdiv100 en h s,
+  clean (worksheet_range_ref fdiv100 en h s) /\ clean (worksheet_range fdiv100 en h s).
+Proof.
+  intros fdiv100 en h s.
+  assert (C : clean (worksheet_range_ref fdiv100 en h s)).
+  { unfold worksheet_range_ref. destruct (no_panic_reader fdiv100 en s) as [_ [S1 S2]].
+    destruct (sheet_cells fdiv100 en s) as [cells| | |]; cbn [obind]; try apply clean_err; try congruence.
+    destruct (from_sparse_total (RVal DEmpty) (lazy_cells (RVal DEmpty) h cells)) as (r & Hr & _).
+    rewrite Hr. apply clean_ok. }
+  split; [exact C|]. unfold worksheet_range. destruct C as [C1 C2].
+  destruct (worksheet_range_ref fdiv100 en h s); cbn [obind];
+    try apply clean_err; try apply clean_ok; congruence.
+Qed.
+
+Theorem no_panic_workbook : forall fdiv100 formats is1904 sst h sheet,
+  clean (workbook_range_ref fdiv100 formats is1904 sst h sheet).
+Proof.
+  intros. unfold workbook_range_ref. destruct (no_panic_sst sst) as [S1 S2].
+  destruct (read_shared_strings sst) as [strings| | |]; cbn [obind]; try apply clean_err; try congruence.
+  apply no_panic_range_ref.
+Qed.
